@@ -109,6 +109,7 @@ def run(rep, tier, seed):
             rep.violation(f"modes:{bad}:{kind}", "property-violated",
                           {"what": bad, "type": t, "strict_coercion": sc, "datum": v,
                            "DISABLE": outs[0], "FIRST": outs[1], "ALL": outs[2]})
+    n_dump = dump_modes_oracle(rep, r, tier)
     header = lg.SHOW_HEADER + ("Definition run (c : nat * bool * ty * pv) : string := "
                                "match c with (m, sc, t, v) => show_res (load BOOM (md_of m) sc t v) end.\n")
     ce = CoqEval(PID, header, "run", shard=500)
@@ -144,6 +145,66 @@ def run(rep, tier, seed):
         for kind, text in proof["problems"]:
             rep.violation(f"{kind}-broken", "proof-broken" if kind == "proof" else kind,
                           {"what": f"{kind} stage failed for {PID}", "text": text}, no_input=not found)
+
+
+def dump_modes_oracle(rep, r, tier):
+    """dumping: what is accepted and returned must not depend on debug_trail either.  Model dumpers (dataclass, TypedDict
+    with optional keys, nested) whose field dumpers succeed, fail with KeyError / AttributeError / ValueError, or whose
+    values lack a required key: the three modes must all succeed with equal results or all fail."""
+    from dataclasses import dataclass
+    from typing import Any, List, Optional, TypedDict
+
+    from adaptix import DebugTrail, Retort, dumper
+
+    Inner = TypedDict("Inner", {"x": int})
+    InnerOpt = TypedDict("InnerOpt", {"x": int, "y": int}, total=False)
+    Outer = TypedDict("Outer", {"a": Inner, "b": int}, total=False)
+    OuterReq = TypedDict("OuterReq", {"a": Inner, "b": int})
+    OuterList = TypedDict("OuterList", {"items": List[Inner], "o": InnerOpt}, total=False)
+
+    @dataclass
+    class DC:
+        a: Any
+        b: int = 1
+
+    class Tagged:
+        pass
+
+    def raising(exc):
+        def f(x):
+            raise exc("boom")
+        return f
+
+    n = 0
+    scenarios = [
+        (Outer, {"a": {}, "b": 1}, []), (Outer, {"a": {"x": 1}, "b": 1}, []), (Outer, {"b": 1}, []), (Outer, {}, []),
+        (OuterReq, {"a": {}, "b": 1}, []), (OuterReq, {"b": 1}, []), (OuterReq, {"a": {"x": 2}, "b": 1}, []),
+        (OuterList, {"items": [{"x": 1}, {}], "o": {}}, []), (OuterList, {"items": [], "o": {"y": 2}}, []), (OuterList, {"o": {}}, []),
+        (InnerOpt, {"x": 1}, []), (InnerOpt, {}, []),
+    ]
+    for exc in (KeyError, AttributeError, ValueError, TypeError, IndexError, LookupError):
+        scenarios += [
+            (Outer, {"a": {"x": 1}, "b": 1}, [dumper(int, raising(exc))]),
+            (Outer, {"a": {"x": 1}}, [dumper(int, raising(exc))]),
+            (InnerOpt, {"y": 5}, [dumper(int, raising(exc))]),
+            (DC, DC(Tagged(), 2), [dumper(Tagged, raising(exc))]),
+            (DC, DC([Tagged()], 2), [dumper(Tagged, raising(exc))]),
+        ]
+    for tp, val, recipe in scenarios:
+        outs = []
+        for m in MODES:
+            n += 1
+            rt = Retort(recipe=recipe, debug_trail=getattr(DebugTrail, m))
+            try:
+                outs.append(("ok", repr(rt.dump(val, tp))))
+            except Exception as e:  # noqa: BLE001
+                outs.append(("fail", type(e).__name__))
+        kinds = {o[0] for o in outs}
+        if len(kinds) > 1 or (kinds == {"ok"} and len({o[1] for o in outs}) > 1):
+            rep.violation(f"dump-modes:{getattr(tp, '__name__', tp)}", "property-violated",
+                          {"what": f"dumping {val!r} as {getattr(tp, '__name__', tp)}: the three debug modes disagree on acceptance / result",
+                           "DISABLE": outs[0], "FIRST": outs[1], "ALL": outs[2]})
+    return n
 
 
 def detuple(x):
